@@ -149,7 +149,13 @@ class CallMixin:  # pylint:disable=too-many-public-methods
                 # lemma L5: every coroutine passed to gather runs as its own task in a *copy* of the current context
                 saved = [(cv, cv.fields["value"]) for cv in self.ctxvars]
                 try:
-                    res[i] = self.await_(x, node, frame)
+                    if getattr(v, "return_exceptions", False):
+                        try:
+                            res[i] = self.await_(x, node, frame)
+                        except PyRaise as err_:
+                            res[i] = err_.exc  # exceptions are treated like results (also non-Exception BaseExceptions of user code)
+                    else:
+                        res[i] = self.await_(x, node, frame)
                 finally:
                     for cv, val in saved:
                         cv.fields["value"] = val
@@ -878,7 +884,9 @@ class CallMixin:  # pylint:disable=too-many-public-methods
         if name == "asyncio.sleep":
             return Ready(None)
         if name == "asyncio.gather":
-            return GatherVal(list(args))
+            g = GatherVal(list(args))
+            g.return_exceptions = bool(kwargs.get("return_exceptions", False))
+            return g
         if name in ("inspect.isawaitable", "asyncio.iscoroutine", "inspect.iscoroutine"):
             v = args[0]
             if isinstance(v, (CoroVal, GatherVal)) or (isinstance(v, Ready) and name == "inspect.isawaitable"):
